@@ -3,6 +3,7 @@ package receiver
 import (
 	"bytes"
 	"context"
+	"errors"
 	"fmt"
 	"io"
 	"io/fs"
@@ -292,6 +293,11 @@ func (rt *Transfer) recvGenerator(idx int, f *File) error {
 	}
 
 	if os.IsNotExist(err) {
+		return requestFullFile()
+	}
+	if rt.Opts.DryRun && errors.Is(err, syscall.ENOTDIR) {
+		// A non-directory is in the way of a parent directory,
+		// which only a real run replaces.
 		return requestFullFile()
 	}
 	if err != nil {
